@@ -146,7 +146,13 @@ class Check(PropertyCheck):
                   "conditional form). Tie: after every operation list(view), focus, store order, "
                   "settings ids and the exact signal sequence are compared; genKey and SortKey.le are compared with the real "
                   "generate() values and Python's <= on flows of every type (incl. OPCODE(n), non-ASCII names, missing content).")
-    level_note = ("ORACLE LENIENCIES (all; each tried by known_selftest on hand-written observations at every run): (a) Skip() "
+    level_note = ("PROOF SIDE, what it does not say (cross-audit round 6): signals_match_changes (SigOK) is membership-based - every "
+                  "add/remove/update/store-remove signal is justified by the change it announces and every change is announced "
+                  "(individually or by a refresh) - it does not state 'exactly once'; multiplicity and order of the signals are "
+                  "checked by the tie only (the exact signal sequence is compared after every operation). rankIn / keysOf / toOp "
+                  "(view_sorted_by_real_keys) are proof-side and not run by the driver: the harness builds its rank tables in Python "
+                  "over its fixed pools (the same construction); tied are the state machine on naturals, genKey and SortKey.le, "
+                  "and the oracle sorts by the real keys independently. ORACLE LENIENCIES (all; each tried by known_selftest on hand-written observations at every run): (a) Skip() "
                   "only for cases whose operations name a flow index outside the pool (after shrinking); (b) a stored flow that "
                   "changed behind the view's back (`mutate`) is excused from the membership clause exactly while its current "
                   "visibility differs from the one the view last evaluated, and from the order clause exactly while its current "
